@@ -106,3 +106,34 @@ Fixpoint serial (k : nat) (c : catalog) (n : N) (opts : Z) : catalog * list outc
   | O => (c, [])
   | S k' => let '(c1, o) := new_btree c n opts in let '(c2, os) := serial k' c1 n opts in (c2, o :: os)
   end.
+
+(* ---------------------------------------------------------------- commit with conflict retries
+   phase1Commit's loop as far as the catalog is concerned.  A round either commits, returns an
+   error from logger state s (Phase1Commit/Phase2Commit then call rollback(ctx, true)), or detects
+   a conflict in state s: `t.rollback(ctx, false)` — the PARTIAL rollback; its flag only guards the
+   tracked item values, the `committedState >= createStore` clean-up runs all the same — whose
+   tail rewinds committedState to `unknown`; then refetchAndMergeModifications re-reads every
+   store of the transaction (a created store that is gone: "store ... not found (maybe deleted by
+   rollback?)") and re-merges the existing ones ([merge_ok], an oracle); on error the FINAL
+   rollback runs in state `unknown`, which is below createStore. *)
+Inductive round := RoundCommitted | RoundError (s : Z) | RoundConflict (s : Z) (merge_ok : bool).
+
+Definition present (c : catalog) (n : N) : bool := match sr_get c n with Some _ => true | None => false end.
+
+Fixpoint commit_loop (rs : list round) (c : catalog) (created : list N) : catalog * bool :=
+  match rs with
+  | [] => (txn_rollback lockTrackedItems c created, false)        (* timed out / retry limit at the loop head *)
+  | RoundCommitted :: _ => (c, true)
+  | RoundError s :: _ => (txn_rollback s c created, false)
+  | RoundConflict s merge_ok :: r =>
+      let c1 := txn_rollback s c created in                       (* partial rollback, then log(unknown) *)
+      if merge_ok && forallb (present c1) created
+      then commit_loop r c1 created                               (* log(lockTrackedItems), next round *)
+      else (txn_rollback unknown c1 created, false)               (* final rollback in state unknown *)
+  end.
+
+Definition round_state_ok (r : round) : Prop :=
+  match r with
+  | RoundCommitted => True
+  | RoundError s | RoundConflict s _ => createStore <= s /\ s <> addActivelyPersistedItem
+  end.
